@@ -15,7 +15,8 @@ SHRINK = False
 RULE = ("random trees: per layer main file in {absent, regular, empty, link to /dev/null} and drop-in directories with names drawn from "
         "a pool with non-numeric byte order, dot files, names without the suffix, sub-directories, same and different names across layers, "
         "contents with group-less and grouped keys; x 8 parameter shapes (project given/NULL, drop-in only, ROOT_PREFIX, PARSING_DIRS, "
-        "CONFIG_DIRS, econf_set_conf_dirs, two-directory read) x suffix spellings; the result is compared with the precedence rule "
+        "CONFIG_DIRS, econf_set_conf_dirs, two-directory read) x suffix spellings, plus a tenth as many sequences of two layered reads through one "
+        "handle (after a successful read; after a failed read on a handle made with PARSING_DIRS); the result is compared with the precedence rule "
         "evaluated on the tree; non-trivial = at least two files consulted; distinct by scenario text")
 
 
@@ -24,6 +25,11 @@ def scenarios(tier, rng):
     out = []
     for i in range(n):
         s, p, t = gen_tree.tree_scenario("t%d" % i, rng)
+        s.meta.update({"p": p, "tree": t})
+        out.append(s)
+    # the same handle used for a second read (its result must belong to the second call's arguments)
+    for i in range(n // 10):
+        s, p, t = gen_tree.reuse_scenario("u%d" % i, rng)
         s.meta.update({"p": p, "tree": t})
         out.append(s)
     # the witness of known finding F14, evaluated by the oracle like every generated tree
@@ -66,7 +72,7 @@ def oracle(s, lines):
     if "p" not in s.meta:
         return None
     tv, main, drops, files = analyse(s)
-    res = next((l for l in lines if l.startswith(("rc ", "rd "))), "")
+    res = next((l for l in (reversed(lines) if s.meta.get("reuse") else lines) if l.startswith(("rc ", "rd "))), "")
     if not files:
         if " E3" not in res:
             return "no file exists but the result is %r (expected file-not-found)" % res
@@ -88,7 +94,7 @@ def f14(s, lines, msg):
     tv, main, drops, files = analyse(s)
     if main is not None or not files:
         return False
-    res = next((l for l in lines if l.startswith(("rc ", "rd "))), "")
+    res = next((l for l in (reversed(lines) if s.meta.get("reuse") else lines) if l.startswith(("rc ", "rd "))), "")
     if " E0 obj" not in res:
         return False
     # the implementation's result equals the rule with "the first file is never masked"
